@@ -658,14 +658,14 @@ class GraphParser:
                     n_trig = TaskTrigger.standardise_name(trig)
                     if n_trig != trig:
                         if offset:
-                            this = r'%s%s%s:%s\b(?!:)' % (
+                            this = r'%s%s%s:%s(?![\w\-:])' % (
                                 self.__class__._RE_NAME_START,
                                 re.escape(name),
                                 re.escape(offset),
                                 re.escape(trig)
                             )
                         else:
-                            this = r'%s%s:%s\b(?![\[:])' % (
+                            this = r'%s%s:%s(?![\w\-\[:])' % (
                                 self.__class__._RE_NAME_START,
                                 re.escape(name),
                                 re.escape(trig)
